@@ -760,3 +760,87 @@ parse_pragma = FunctionContract(
              "self.current_meta = {'tag': condition, 'condition': condition.replace(\"#\", \"\")}\n            elif self.current_meta is not None:")],
 )
 CONTRACTS.append(parse_pragma)
+
+
+# ------------------------------------------------------------------ map_input._compute_weights: the weights of one mapping line add up to one
+FW = 'vermouth/map_input.py'
+RECS_W = [
+    # the number of times the k-th distinct target particle of line i is written (without '!'), and the row total
+    ('RS', [('i', TInt), ('n', TInt)], TReal, "0 if n <= 0 else RS(i, n - 1) + COUNT(i, n - 1)"),
+]
+_W_UFS = [('COUNT', [TInt, TInt], TReal), ('ncols', [TInt], TInt)]
+L_row_pos = Lemma('L_row_pos', [('i', TInt), ('n', TInt)], spec_recs=RECS_W, prop='C13', file=FW, ufs=_W_UFS,
+                  requires=["forall(lambda a, b: COUNT(a, b) >= 1)", "n >= 1"], ensures=["RS(i, n) >= 1"], induction='n')
+
+
+def setup_cw(cx):
+    from pyvc.values import IterV
+    from pyvc.builtins import _int
+    eng = cx.eng
+    COUNT = cx.uf('COUNT', [TInt, TInt], TReal)             # dict(Counter([...])): how often line i names its k-th distinct target particle
+    ncols = cx.uf('ncols', [TInt], TInt)
+    nrows = cx.val('nrows', TInt)
+    cx.spec_env['nrows'] = nrows
+    a_, b_ = z3.Int('a'), z3.Int('b')
+    cx.assume(z3.ForAll([a_, b_], COUNT(a_, b_) >= 1))
+    cx.assume(z3.ForAll([a_], ncols(a_) >= 0))
+    cx.assume(nrows.e >= 0)
+    wt = TMap(TTuple(TInt, TInt), TReal)
+    W = cx.heap('W', cx.box('W', wt))                        # pre_weights, by (line, position of the particle): the dictionaries are shared objects
+
+    def row(i):
+        from pyvc.builtins import getitem, setitem
+        ie = _int(i)
+        o = Obj('atom_weights')
+
+        def values(e):
+            it = IterV(ncols(ie), lambda k: getitem(e, W, (SV(TInt, ie), SV(TInt, _int(k)))))
+            it.row = ie
+            return it
+        o.attrs.update(values=Builtin(values, 'atom_weights.values'), __len__=Builtin(lambda e: SV(TInt, ncols(ie)), 'len(atom_weights)'),
+                       __getitem__=Builtin(lambda e, k: getitem(e, W, (SV(TInt, ie), k)), 'atom_weights[]'),
+                       __setitem__=Builtin(lambda e, k, v: setitem(e, W, (SV(TInt, ie), k), v), 'atom_weights[]='))
+        o.__dict__['iter'] = IterV(ncols(ie), lambda k: SV(TInt, _int(k)))     # its keys, in the dictionary's order
+        return o
+
+    def sum_(e, it, start=0):
+        # sum(d.values()) by its contract: the row total RS(i, len(d)) - of the values as they are now, which have to be the counts
+        ie = getattr(it, 'row', None)
+        if ie is None:
+            raise EngineError('sum of something else')
+        k = z3.FreshInt('sk')
+        key = wt.k.mk(ie, k) if hasattr(wt.k, 'mk') else None
+        e.oblige(z3.ForAll([k], z3.Implies(z3.And(0 <= k, k < ncols(ie)), wt.at(W.e, key) == COUNT(ie, k))),
+                 'total:of-the-counts-of-this-line')
+        return e.call(e.spec_fallback.lookup('RS'), [SV(TInt, ie), SV(TInt, ncols(ie))], {})
+    cx.spec_env['sum'] = Builtin(sum_, 'sum')
+    return dict(pre_weights=Obj('pre_weights', values=Builtin(lambda e: IterV(nrows.e, row), 'pre_weights.values')))
+
+
+compute_weights_norm = FunctionContract(
+    FW, '_compute_weights', 'C13', short='_compute_weights[normalisation]', setup=setup_cw, spec_recs=RECS_W, lemmas=[L_row_pos],
+    region=dict(start="for atom_weights in pre_weights.values():", end="weights = collections.defaultdict(dict)"),
+    requires=["forall(lambda i, k: implies(0 <= i and i < nrows and 0 <= k and k < ncols(i), (i, k) in W and W[(i, k)] == COUNT(i, k)))"],
+    ensures=[
+        # every weight of a line is the number of times the particle is written divided by the number of (weighted) particles
+        # written on that line; the lines do not influence each other
+        "forall(lambda i, k: implies(0 <= i and i < nrows and 0 <= k and k < ncols(i), W[(i, k)] == COUNT(i, k) / RS(i, ncols(i))))",
+    ],
+    modifies=['W'],
+    loops={
+        'L1': LoopSpec(inv=["forall(lambda i, k: implies(0 <= i and i < _i and 0 <= k and k < ncols(i), W[(i, k)] == COUNT(i, k) / RS(i, ncols(i))))",
+                            "forall(lambda i, k: implies(_i <= i and i < nrows and 0 <= k and k < ncols(i), (i, k) in W and W[(i, k)] == COUNT(i, k)))"],
+                       modifies=['W']),
+        'L1.1': LoopSpec(inv=["total == RS(_iL1, ncols(_iL1)) and implies(ncols(_iL1) >= 1, total >= 1)",
+                              "forall(lambda k: implies(0 <= k and k < _i, W[(_iL1, k)] == COUNT(_iL1, k) / total))",
+                              "forall(lambda k: implies(_i <= k and k < ncols(_iL1), (_iL1, k) in W and W[(_iL1, k)] == COUNT(_iL1, k)))",
+                              "forall(lambda i, k: implies(0 <= i and i < _iL1 and 0 <= k and k < ncols(i), W[(i, k)] == COUNT(i, k) / RS(i, ncols(i))))",
+                              "forall(lambda i, k: implies(_iL1 < i and i < nrows and 0 <= k and k < ncols(i), (i, k) in W and W[(i, k)] == COUNT(i, k)))"],
+                         modifies=['W'], ghost_init="if ncols(_iL1) >= 1:\n    use_lemma('L_row_pos', _iL1, ncols(_iL1))"),
+    },
+    locals=dict(total=TReal),
+    canary=[("atom_weights[to_atom] /= total", "atom_weights[to_atom] /= len(atom_weights)"),
+            ("atom_weights[to_atom] /= total", "atom_weights[to_atom] = total")],
+)
+CONTRACTS.append(compute_weights_norm)
+LEMMAS.append(L_row_pos)
